@@ -6,10 +6,12 @@ import (
 	"compress/gzip"
 	"crypto/sha256"
 	"encoding/base32"
+	"encoding/base64"
 	"encoding/hex"
 	"encoding/json"
 	"fmt"
 	"io"
+	"math/big"
 	"net"
 	"net/http"
 	"net/http/httptest"
@@ -48,20 +50,45 @@ type stall struct {
 type world struct {
 	root string
 	key  *synthrepo.Key
-	revs []*revision
+	// extraKey: a second public key served next to the repository key
+	extraKey *synthrepo.Key
+	revs     []*revision
 
 	mu     sync.Mutex
 	cur    int
 	flip   int               // >=0: switch to this revision right after the next HEAD of the index has been answered
 	stalls map[string]*stall // URL path suffix -> stall
-	reqs   []string
-	srv    *httptest.Server
-	self   string
-	nrun   int
+	faults map[string]*fault // URL path suffix -> transient fault (the next n matching GETs)
+	// discovery: the origin implements chainguard-style key discovery (/repo/apk-configuration -> JWKS)
+	discovery bool
+	reqs      []string
+	srv       *httptest.Server
+	self      string
+	nrun      int
 	// every process ever started, each in its own process group: close() kills whatever is
 	// still alive (a held or stalled builder when the driver bails out), so no child survives
 	children []*exec.Cmd
 }
+
+// fault: the next n GET requests for a path ending in the suffix are answered with an HTTP status
+// (status > 0), or get only the first `cut` bytes of the body before the connection is torn down
+// (status == 0): a transient failure of the origin or the network which the CLIENT SURVIVES.
+type fault struct {
+	status int
+	cut    int
+	n      int
+	hits   int
+}
+
+func (w *world) faultAt(suffix string, status, cut, n int) *fault {
+	f := &fault{status: status, cut: cut, n: n}
+	w.mu.Lock()
+	w.faults[suffix] = f
+	w.mu.Unlock()
+	return f
+}
+
+func (w *world) clearFaults() { w.mu.Lock(); w.faults = map[string]*fault{}; w.mu.Unlock() }
 
 func etagOf(b []byte) string {
 	s := sha256.Sum256(b)
@@ -121,7 +148,7 @@ func newWorld(nrev int) (*world, error) {
 	if err != nil {
 		return nil, err
 	}
-	w := &world{root: root, stalls: map[string]*stall{}, flip: -1}
+	w := &world{root: root, stalls: map[string]*stall{}, faults: map[string]*fault{}, flip: -1}
 	w.self, err = os.Executable()
 	if err != nil {
 		return nil, err
@@ -134,6 +161,15 @@ func newWorld(nrev int) (*world, error) {
 		d := filepath.Join(root, fmt.Sprintf("origin-rev%d", r))
 		rp, err := synthrepo.Write(d, w.key, pkgSet(r))
 		if err != nil {
+			return nil, err
+		}
+		// a second public key next to the repository's (keyrings given as URLs: two files in one URL directory)
+		if w.extraKey == nil {
+			if w.extraKey, err = synthrepo.NewKey("zz-extra@verif-0002.rsa.pub"); err != nil {
+				return nil, err
+			}
+		}
+		if err := os.WriteFile(filepath.Join(d, "keys", w.extraKey.Name), w.extraKey.Pub, 0o644); err != nil {
 			return nil, err
 		}
 		ix, err := os.ReadFile(filepath.Join(d, "x86_64", "APKINDEX.tar.gz"))
@@ -199,7 +235,19 @@ func (w *world) serve(rw http.ResponseWriter, req *http.Request) {
 		w.cur, w.flip = w.flip, -1 // this HEAD is still answered from the old revision
 	}
 	var st *stall
+	var ft *fault
 	if req.Method == http.MethodGet {
+		for suf, f := range w.faults {
+			if strings.HasSuffix(req.URL.Path, suf) && f.n > 0 {
+				f.n--
+				f.hits++
+				ft = f
+				break
+			}
+		}
+	}
+	disc := w.discovery
+	if req.Method == http.MethodGet && ft == nil {
 		for suf, s := range w.stalls {
 			if strings.HasSuffix(req.URL.Path, suf) {
 				st = s
@@ -209,6 +257,20 @@ func (w *world) serve(rw http.ResponseWriter, req *http.Request) {
 		}
 	}
 	w.mu.Unlock()
+	if ft != nil && ft.status > 0 {
+		http.Error(rw, "transient fault", ft.status)
+		return
+	}
+	if disc && req.URL.Path == "/repo/apk-configuration" {
+		rw.Header().Set("Content-Type", "application/json")
+		fmt.Fprintf(rw, `{"jwks_uri": %q}`, w.srv.URL+"/jwks")
+		return
+	}
+	if disc && req.URL.Path == "/jwks" {
+		rw.Header().Set("Content-Type", "application/json")
+		rw.Write(w.jwks())
+		return
+	}
 	if !strings.HasPrefix(req.URL.Path, "/repo/") {
 		http.NotFound(rw, req)
 		return
@@ -220,6 +282,25 @@ func (w *world) serve(rw http.ResponseWriter, req *http.Request) {
 		return
 	}
 	rw.Header().Set("ETag", `"`+etagOf(b)+`"`)
+	if ft != nil {
+		// the body is cut: Content-Length promises everything, the connection dies after ft.cut bytes
+		rw.Header().Set("Content-Length", fmt.Sprint(len(b)))
+		rw.WriteHeader(200)
+		n := ft.cut
+		if n > len(b) {
+			n = len(b)
+		}
+		rw.Write(b[:n])
+		if f, ok := rw.(http.Flusher); ok {
+			f.Flush()
+		}
+		if hj, ok := rw.(http.Hijacker); ok {
+			if c, _, err := hj.Hijack(); err == nil {
+				c.Close()
+			}
+		}
+		return
+	}
 	if st == nil {
 		http.ServeContent(rw, req, filepath.Base(p), time.Time{}, bytes.NewReader(b))
 		return
@@ -240,6 +321,15 @@ func (w *world) serve(rw http.ResponseWriter, req *http.Request) {
 	rw.Write(b[n:])
 }
 
+// jwks: the repository key as a JSON Web Key Set (kid = key file name without ".rsa.pub")
+func (w *world) jwks() []byte {
+	pub := w.key.Priv.PublicKey
+	b64 := base64.RawURLEncoding.EncodeToString
+	e := big.NewInt(int64(pub.E)).Bytes()
+	kid := strings.TrimSuffix(w.key.Name, ".rsa.pub")
+	return []byte(fmt.Sprintf(`{"keys":[{"use":"sig","kty":"RSA","kid":%q,"alg":"RS256","n":%q,"e":%q}]}`, kid, b64(pub.N.Bytes()), b64(e)))
+}
+
 func (w *world) requests() []string {
 	w.mu.Lock()
 	defer w.mu.Unlock()
@@ -254,17 +344,23 @@ type runSpec struct {
 	Cache   string // "" = no cache
 	Offline bool
 	Pkgs    []string
-	CrashAt string // VERIF_CRASH_AT
-	WaitAt  string // VERIF_WAIT_AT
-	WaitF   string // VERIF_WAIT_FILE
-	Trace   string // VERIF_TRACE_FILE
-	Strace  string // if set: run under strace -f, output file
+	CrashAt string   // VERIF_CRASH_AT
+	WaitAt  string   // VERIF_WAIT_AT
+	WaitF   string   // VERIF_WAIT_FILE
+	Trace   string   // VERIF_TRACE_FILE
+	Strace  string   // if set: run under strace -f, output file
+	N       int      // > 1: that many builds one after the other in ONE process, sharing one apk.Cache object
+	NoKey   bool     // no keyring in the configuration: the key must come from key discovery
+	Gate    string   // with N > 1: before build i (1-based, i >= 2) create <Gate>.<i>.reached and wait for <Gate>.<i>
+	NoEtag  bool     // apk.NewCache(false): HEAD responses are not memoised in the process
+	Keys    []string // keyring entries (paths or URLs) instead of the repository key file
 }
 
 type runOut struct {
 	Killed bool
 	Exit   int
 	Res    workerResult
+	All    []workerResult // every build of the process (N > 1)
 	Dur    time.Duration
 }
 
@@ -276,10 +372,23 @@ func (w *world) command(s runSpec) (*exec.Cmd, string) {
 	resf := filepath.Join(w.root, fmt.Sprintf("result-%d.json", id))
 	tmp := filepath.Join(w.root, fmt.Sprintf("tmp-%d", id))
 	os.MkdirAll(tmp, 0o755)
-	args := []string{"-worker", "-repo", w.repoURL(), "-key", w.revs[0].repo.KeyPath(), "-cache", s.Cache,
+	keyArg := w.revs[0].repo.KeyPath()
+	if len(s.Keys) > 0 {
+		keyArg = strings.Join(s.Keys, ",")
+	}
+	args := []string{"-worker", "-repo", w.repoURL(), "-key", keyArg, "-cache", s.Cache,
 		"-pkgs", strings.Join(s.Pkgs, ","), "-result", resf, "-tmp", tmp}
 	if s.Offline {
 		args = append(args, "-offline")
+	}
+	if s.N > 1 {
+		args = append(args, "-n", fmt.Sprint(s.N), "-gate", s.Gate)
+	}
+	if s.NoKey {
+		args = append(args, "-nokey")
+	}
+	if s.NoEtag {
+		args = append(args, "-noetag")
 	}
 	var cmd *exec.Cmd
 	if s.Strace != "" {
@@ -320,6 +429,10 @@ func finish(cmd *exec.Cmd, resf string, t0 time.Time) runOut {
 	}
 	if b, err := os.ReadFile(resf); err == nil {
 		json.Unmarshal(b, &out.Res)
+		if b2, err := os.ReadFile(resf + ".all"); err == nil {
+			json.Unmarshal(b2, &out.All)
+			os.Remove(resf + ".all")
+		}
 	} else if !out.Killed {
 		out.Res.Err = "no result file"
 	}
